@@ -576,3 +576,61 @@ def subst_deep(t, const_map=(), func_map=()):
     if const_map:
         t = z3.substitute(t, *[(c, to_z3(v)) for c, v in const_map])
     return t
+
+
+# --------------------------------------------------------------------------- nonlinear abstraction
+MULF = z3.Function("mul_abs", RealS, RealS, RealS)
+DIVF = z3.Function("div_abs", RealS, RealS, RealS)
+
+
+def abstract_nonlinear(fs):
+    """Replaces products of two or more non-numeral factors (and divisions by non-numerals) by
+    applications of uninterpreted functions, arguments in a canonical order.  Every model of the
+    original formulas is a model of the abstraction (take mul_abs = *), so `unsat` of the
+    abstraction implies `unsat` of the original: sound for discharging, useless for refuting."""
+    memo = {}
+
+    def isnum(x):
+        return z3.is_rational_value(x) or z3.is_int_value(x)
+
+    def rb(t):
+        k = t.get_id()
+        if k in memo:
+            return memo[k]
+        if z3.is_quantifier(t):
+            n = t.num_vars()
+            cs = [z3.Const(Fresh.name("qv"), t.var_sort(i)) for i in range(n)]
+            body = z3.substitute_vars(t.body(), *reversed(cs))
+            nb = rb(body)
+            r = z3.ForAll(cs, nb) if t.is_forall() else z3.Exists(cs, nb)
+        elif z3.is_app(t) and t.num_args() > 0:
+            ch = [rb(c) for c in t.children()]
+            kind = t.decl().kind()
+            if kind == z3.Z3_OP_MUL:
+                nums = [c for c in ch if isnum(c)]
+                rest = [c for c in ch if not isnum(c)]
+                if len(rest) >= 2:
+                    rest = [to_real(c) for c in rest]
+                    acc = rest[0]
+                    for c in rest[1:]:
+                        acc = MULF(acc, c)
+                    for nn in nums:
+                        acc = to_real(nn) * acc
+                    r = acc
+                else:
+                    r = t.decl()(*ch)
+            elif kind == z3.Z3_OP_DIV and not isnum(ch[1]):
+                r = DIVF(to_real(ch[0]), to_real(ch[1]))
+            else:
+                try:
+                    r = t.decl()(*ch)
+                except Exception:
+                    r = t
+        else:
+            r = t
+        memo[k] = r
+        return r
+    out = [rb(f) for f in fs]
+    x, y = z3.Reals("x!c y!c")
+    out.append(z3.ForAll([x, y], MULF(x, y) == MULF(y, x), patterns=[MULF(x, y)]))
+    return out
